@@ -28,11 +28,11 @@ func checkBytes(c bytesCase) *vlib.Failure {
 	return f
 }
 
-var fragments = []string{"\n", "\r\n", "\t", " ", ">", "@", "+", "#", "##", ".", "-", "0", "1", "chr1", "a", "ACGT", "IIII", "##gff-version", "##gff-version 2", "##sequence-region",
+var fragments = []string{"\n", "\r\n", "\t", " ", ">", ">>", "@", "+", "#", "##", ".", "-", "0", "1", "chr1", "a", "ACGT", "IIII", "##gff-version", "##gff-version 2", "##sequence-region",
 	"##DNA", "##end-DNA", "##Type", "##date", ";", ",", "\x00", "\xff", "\xa0", "\x85", " \xa0", "\t\x85\xa0", ">id \xa0", "@id \x85", "\xc2\xa0", "\u2028", "9223372036854775808", "+\n", "@a\nAC\n+\nII\n", ">a\nAC\n", "c\t1\t2\tn\t0\t+\t1\t2\t0\t1\t1\t0\n", "s\tp\tf\t1\t2\t.\t+\t.\tT v\n"}
 
 func genBytes(t *rapid.T) bytesCase {
-	c := bytesCase{Reader: rapid.SampledFrom(append(append(append([]string{}, Readers...), "fasta-q"), FastqVariants...)).Draw(t, "reader")}
+	c := bytesCase{Reader: rapid.SampledFrom(append(append(append([]string{}, Readers...), FastaVariants...), FastqVariants...)).Draw(t, "reader")}
 	n := rapid.IntRange(0, 40).Draw(t, "nfrag")
 	var b bytes.Buffer
 	for i := 0; i < n; i++ {
@@ -111,7 +111,7 @@ func (c mutCase) base() []byte {
 func (c mutCase) readers() []string {
 	switch c.Format {
 	case "fasta":
-		return []string{"fasta", "fasta-q"}
+		return append([]string{"fasta"}, FastaVariants...)
 	case "fastq":
 		return append([]string{"fastq"}, FastqVariants...)
 	case "bed":
